@@ -51,6 +51,19 @@ fn check_one<CS: CLCiphersuite>(rep: &Report, ck: &str, c: &Case, keys: &[ClKey]
     if !sig.verify_multiattr(pk, &bases, &msgs) {
         return rep.fail(ck, "issued-signature-rejected", format!("verify_multiattr is false for a fresh signature over {} attributes", n), cj(json!({"attributes": vals.iter().map(short).collect::<Vec<_>>()})));
     }
+    // the CL03 equation itself, recomputed here: v^e = a_1^m_1 ... a_n^m_n * b^s * c (mod N), 0 < v < N
+    // (a signer and a verifier that agree with each other on something else would otherwise go unnoticed)
+    {
+        rep.eval(ck, 1);
+        let lhs = Integer::from(v.pow_mod_ref(&e, nn).unwrap());
+        let mut rhs = Integer::from(pk.b.pow_mod_ref(&s, nn).unwrap()) * &pk.c % nn;
+        for i in 0..n {
+            rhs = rhs * Integer::from(bases.0[i].pow_mod_ref(&vals[i], nn).unwrap()) % nn;
+        }
+        if lhs != rhs || v <= 0 || v >= *nn {
+            return rep.fail(ck, "issued-signature-violates-the-cl-equation", format!("v^e != prod a_i^m_i * b^s * c (mod N) or v outside (0, N) for a fresh signature over {} attributes (verify_multiattr accepts it)", n), cj(json!({"attributes": vals.iter().map(short).collect::<Vec<_>>()})));
+        }
+    }
     if n == 1 {
         let s1 = Signature::<CL03<CS>>::sign(pk, sk, &bases, &msgs[0]);
         rep.eval(ck, 2);
@@ -295,6 +308,39 @@ pub fn run_suite(ctx: &Ctx, rep: &Report, suite: ClSuite, n_gen: usize, n_fix: u
     rep.note(format!("{}: {} keys ({} from generate(), {} from fixture primes)", suite.name(), keys.len(), n_gen, keys.len() - n_gen));
     let ck = format!("signatures-{}", suite.name());
     run_cases(ctx, rep, &ck, cases, 60, strat, |c| with_cl!(suite, CS => check_one::<CS>(rep, &ck, c, &keys)));
+    // volume: a few thousand signatures over one or two attributes, each verified, taken through the byte codec
+    // and verified again (a component with a leading zero octet, a rare carry, occurs once in a few hundred)
+    if suite == ClSuite::CL1024 {
+        let total = ctx.tier.pick(3200usize, 40000usize);
+        let ws: Vec<usize> = (0..16).collect();
+        let ck3 = format!("volume-{}", suite.name());
+        par_items(ctx, rep, &ck3, &ws, |&w| {
+            with_cl!(suite, CS => {
+                let key = &keys[w % keys.len()];
+                let (pk, sk) = (&key.pk, &key.sk);
+                let bases = Bases::generate(pk, 2);
+                let mut st = ctx.seed ^ ((w as u64) << 32) | 9;
+                for k in 0..total / 16 {
+                    if rep.aborted() {
+                        break;
+                    }
+                    let n = 1 + k % 2;
+                    let msgs: Vec<CL03Message> = (0..n).map(|i| CL03Message::new(attr((k + i) as u8 % 6 + if k % 3 == 0 { 0 } else { 4 }, &mut st))).collect();
+                    let sig = Signature::<CL03<CS>>::sign_multiattr(pk, sk, &bases, &msgs);
+                    rep.eval(&ck3, 2);
+                    let back = catch(|| Signature::<CL03<CS>>::from_bytes(&sig.to_bytes()));
+                    let ok1 = sig.verify_multiattr(pk, &bases, &msgs);
+                    let ok2 = back.as_ref().map(|b| *b == sig && b.verify_multiattr(pk, &bases, &msgs)).unwrap_or(false);
+                    if !ok1 || !ok2 {
+                        return rep.fail(&ck3, if !ok1 { "issued-signature-rejected" } else { "signature-bytes-roundtrip" }, format!("signature #{} of worker {} over {} attribute(s): verifies = {}, verifies after from_bytes(to_bytes()) = {}; signature: {}", k, w, n, ok1, ok2, truncate(&serde_json::to_string(&sig).unwrap_or_default(), 300)),
+                            json!({"volume": {"key": key.id, "pk": serde_json::to_value(pk).unwrap_or(json!(null)), "bases": serde_json::to_value(&bases).unwrap_or(json!(null)), "signature": serde_json::to_value(&sig).unwrap_or(json!(null)), "messages": serde_json::to_value(&msgs).unwrap_or(json!(null))}}));
+                    }
+                }
+                rep.nontrivial(&ck3, &json!({"worker": w}));
+                Ok(())
+            })
+        });
+    }
     // every attribute count in a contiguous range
     let sweep: Vec<Case> = (6..=ctx.tier.pick(24usize, 70usize)).map(|n| Case { key: (n * 7919) as u16, n, classes: vec![5, (n % 6) as u8, 4, 5, 2], seed: (ctx.seed as u32).wrapping_add(n as u32) }).collect();
     let ck2 = format!("attribute-count-sweep-{}", suite.name());
@@ -309,10 +355,10 @@ pub fn run(ctx: &Ctx, rep: &Report) -> Meta {
     }
     Meta {
         rule: "key from a pool (KeyPair::generate() keys and keys built from pre-computed safe primes through the public constructors), n = 1..5 attributes from {0, 1, 2^255, 2^256-1, SHA-256 of bytes, random 256-bit}, fresh bases; \
-               positive: sign / sign_multiattr verify, disclose_selectively for ALL 2^n hidden sets verifies (and, for the same sets listed out of order or with repeated positions, whatever the call returns verifies; it may refuse), byte and JSON round trips, e prime (own Miller-Rabin + GMP) of exactly le bits coprime to (p-1)(q-1), s of exactly ls bits; \
+               positive: sign / sign_multiattr verify and satisfy the CL03 equation recomputed by the harness (v^e = prod a_i^m_i * b^s * c, 0 < v < N), disclose_selectively for ALL 2^n hidden sets verifies (and, for the same sets listed out of order or with repeated positions, whatever the call returns verifies; it may refuse), byte and JSON round trips, e prime (own Miller-Rabin + GMP) of exactly le bits coprime to (p-1)(q-1), s of exactly ls bits; \
                negative (attacker programs need no secret key): every attribute +-1 / bit flip / random, swaps, dropped attribute, shift by k*e with v*a_i^k for k in {1, 2, -1, -2} (oversized and negative attributes), \
                single-field edits of e, s, v (+-1, bit flip, 0, 1), field swaps, trivial-exponent forgery e = 1, other bases, rotated bases, other key; oracle: verify is false; \
-               attribute-count sweep n = 6..=24 (quick) / 6..=70 (thorough); byte round trip of constructed signatures with tiny / maximal / leading-zero components; non-trivial = n >= 2 or a negative family executed; evaluations = verifications"
+               attribute-count sweep n = 6..=24 (quick) / 6..=70 (thorough); volume: 3200 (quick) / 40000 (thorough) signatures over one or two attributes, each verified before and after the byte codec; byte round trip of constructed signatures with tiny / maximal / leading-zero components; non-trivial = n >= 2 or a negative family executed; evaluations = verifications"
             .into(),
         assumptions: vec![
             "correlated re-randomisations (s + k*e, v*b^k) are not 'another attribute vector' and are not generated".into(),
@@ -322,6 +368,17 @@ pub fn run(ctx: &Ctx, rep: &Report) -> Meta {
 }
 
 pub fn replay(ctx: &Ctx, rep: &Report, ck: &str, case: &Value) -> CheckResult {
+    if ck.starts_with("volume") {
+        let v = &case["volume"];
+        let perr = |m: &str| Fail { check: ck.into(), site: "replay-parse".into(), msg: m.into(), case: json!(null) };
+        let pk: CL03PublicKey = serde_json::from_value(v["pk"].clone()).map_err(|_| perr("pk"))?;
+        let bases: Bases = serde_json::from_value(v["bases"].clone()).map_err(|_| perr("bases"))?;
+        let msgs: Vec<CL03Message> = serde_json::from_value(v["messages"].clone()).map_err(|_| perr("messages"))?;
+        let sig: Signature<CL03<CL1024Sha256>> = serde_json::from_value(v["signature"].clone()).map_err(|_| perr("signature"))?;
+        let ok1 = sig.verify_multiattr(&pk, &bases, &msgs);
+        let ok2 = catch(|| Signature::<CL03<CL1024Sha256>>::from_bytes(&sig.to_bytes())).map(|b| b == sig && b.verify_multiattr(&pk, &bases, &msgs)).unwrap_or(false);
+        return if ok1 && ok2 { Ok(()) } else { Err(Fail { check: ck.into(), site: if !ok1 { "issued-signature-rejected".into() } else { "signature-bytes-roundtrip".into() }, msg: "the recorded signature fails again".into(), case: json!({"volume": "see file"}) }) };
+    }
     let c: Case = serde_json::from_value(case["case"].clone()).map_err(|e| Fail { check: ck.into(), site: "replay-parse".into(), msg: e.to_string(), case: case.clone() })?;
     let suite = if ck.ends_with("CL2048") { ClSuite::CL2048 } else if ck.ends_with("CL3072") { ClSuite::CL3072 } else { ClSuite::CL1024 };
     // keys are regenerated: the failing relation does not depend on the particular key
